@@ -492,12 +492,21 @@ impl<'a> Machine<'a> {
                     (V::Int(c), "is_ascii") => return Ok(V::Bool(*c < 0x80)),
                     (V::Char(c), "len_utf8") => return Ok(V::Int(utf8_len(*c) as i128)),
                     (V::Char(c), "is_ascii_digit") => return Ok(V::Bool((0x30..=0x39).contains(c))),
+                    (V::Char(c), "is_ascii_alphabetic") => return Ok(V::Bool((0x41..=0x5a).contains(c) || (0x61..=0x7a).contains(c))),
+                    (V::Char(c), "is_ascii_alphanumeric") => return Ok(V::Bool((0x30..=0x39).contains(c) || (0x41..=0x5a).contains(c) || (0x61..=0x7a).contains(c))),
+                    (V::Char(c), "is_ascii_lowercase") => return Ok(V::Bool((0x61..=0x7a).contains(c))),
+                    (V::Char(c), "is_ascii_uppercase") => return Ok(V::Bool((0x41..=0x5a).contains(c))),
                     _ => {}
                 }
                 if let Some(v) = (self.methods)(&recv, &m, &args) {
                     return Ok(v);
                 }
                 Err(format!("method {:?}.{}()", recv, m))
+            }
+            syn::Expr::Field(_) | syn::Expr::Index(_) => {
+                // place expressions such as `self.window[0]`: looked up by their compact text
+                let k = sm::tsc(e);
+                self.get(&k).ok_or_else(|| format!("unbound place `{}`", k))
             }
             other => Err(format!("expression `{}`", sm::tsc(other).chars().take(60).collect::<String>())),
         }
